@@ -275,7 +275,7 @@ func (e *env) runHistory(h History) (out []finding) {
 		switch op.Kind {
 		case "open":
 			need[op.Agent] += 2
-		case "write", "close", "shot", "output":
+		case "write", "close", "shot", "output", "transfer":
 			need[op.Agent]++
 		}
 	}
@@ -673,6 +673,34 @@ func (e *env) runHistory(h History) (out []finding) {
 			}
 			if len(opn) == 1 && !opn[0].dup {
 				opn[0].data = append(opn[0].data, op.Chunk...)
+			}
+
+		case "transfer":
+			// COMMAND_TRANSFER callbacks (list / stop / resume acknowledged for this file id):
+			// bookkeeping only - the loot tree stays as it is, and the transfer goes on
+			var p demon.Pkg
+			switch op.Reason {
+			case 0:
+				p.I32(0).I32(op.FileID).I32(10).I32(1)
+			case 1:
+				p.I32(1).I32(1).I32(op.FileID)
+			default:
+				p.I32(2).I32(1).I32(op.FileID)
+			}
+			if !post(opi, a, demon.Callback{Cmd: 2530, ReqID: takeTask(a), Body: p.B}) {
+				continue
+			}
+			ch := e.step()
+			checkConsole(opi, a, "transfer-control")
+			e.obs(fmt.Sprintf("transfer-control:%d", op.Reason))
+			var bad []change
+			for _, c := range ch {
+				if c.path != console {
+					bad = append(bad, c)
+				}
+			}
+			if len(bad) > 0 {
+				report(opi, "transfer-control:changed-loot", "the agent's answer to a transfer list/stop/resume command changed the loot tree", "no change", fmtChanges(bad))
 			}
 
 		case "close":
